@@ -16,7 +16,7 @@ CHECKS = {
 
 CHECKS.update({
     "C01": ("boxmc", "bounded-exhaustive enumeration of tiny-MDP alphabets x solver/test rows x gamma x eps (+ secondary axes) on real solvers, exact v*/v^pi oracle",
-            "Every member of the enumerated sub-products (canonical 1-2 state MDP alphabets, tie family, block packs; 5 solver/test rows; gamma, eps; encodings, scales, initial values/policies, batch sizes, shuffle seeds) is a real solve() on a fresh solver; the returned policy is evaluated exactly by linear solve and compared with exact v* against the stated a-priori bounds. Largest observed error/bound ratio per bound is reported so vacuity is visible.",
+            "Every member of the enumerated sub-products (canonical 1-2 state MDP alphabets, near-tie family, sign-symmetric anchor family, block packs; 5 solver/test rows; gamma, eps; encodings, scales, initial values/policies, batch sizes, shuffle seeds) is a real solve() on a fresh solver; the returned policy is evaluated exactly by linear solve and compared with exact v* against the stated a-priori bounds. Largest observed error/bound ratio per bound is reported so vacuity is visible.",
             "Small-scope: MDPs with <=3 states (plus block-packed unions up to ~1200 states); gamma/eps grids; single device (C03 covers devices). PI bounds asserted only when the returned (V,pi) pass the evaluation stopping test.", "6 C01"),
     "C02": ("boxmc", "bounded-exhaustive enumeration of Bellman-backup rows (row alphabets R(A,E), block-packed M2d/M2s x W^2) through the real sweep kernel and solve(1)",
             "Every row of the row alphabets (all probability patterns x rewards x successor values, 3.3e5 rows for R(2,2)) and every MDP of M2d/M2s with every value vector in W^2 goes through the real sweep (private kernel with injected vector, and public solve(1) from initial_value) and real policy extraction; compared with the numpy backup; monotonicity, contraction and shift are checked on the real outputs for all ordered pairs.",
@@ -28,7 +28,7 @@ CHECKS.update({
 
 CHECKS.update({
     "C03": ("boxmc", "bounded-exhaustive enumeration of the layout box (n_states x max_batch_size x emulated device count) x solver, differential against the single-device single-batch layout on the same call history",
-            "Every layout of the box (quick n<=8, b<=n+1, d<=3; thorough n<=13 plus 64..200, d in 1,2,3,4,8) x zero-vector-is/is-not-a-state x six solver variants runs the call history [1,1,1,1,60] on real solvers in worker pools with that many emulated devices; per-call values, iteration, gain, value history and the value of the returned policy must equal the baseline layout; array lengths and finiteness checked; semi-async runs must meet their error bound for every partition.",
+            "Every layout of the box (quick n<=8, b<=n+1, d<=3; thorough n<=13 plus 64..200, d in 1,2,3,4,8) x zero-vector-is/is-not-a-state x six solver variants runs the call history [1,1,1,1,60] on real solvers in worker pools with that many emulated devices; per-call values, iteration, gain, value history and the value of the returned policy must equal the baseline layout; array lengths and finiteness checked; in the offset encodings the padding vector is not a state and carries a poisoned reward, so any leak of a padding slot is visible; semi-async runs must meet their error bound for every partition.",
             "Host devices emulated with --xla_force_host_platform_device_count; Mgen(n) problems; rounding tolerance 1e-10 relative.", "6 C03"),
     "C04": ("boxmc", "bounded-exhaustive enumeration of unichain-aperiodic MDP alphabets x eps x initial values on the real RVI solver, exact g* oracle and reference recurrence",
             "Every member of Mreset(S=2) (666 canonical, unichain+aperiodic by construction), every M2d/M2s/chain-family member the graph classifier certifies for every deterministic policy, a near-tie family and a packed union are solved by the real solver for three tolerances; reported gain, the optimality equation at every state, the exact gain of the returned policy, equality with the reference recurrence, and boundedness under 50 further sweeps are asserted.",
@@ -40,7 +40,7 @@ CHECKS.update({
             "For every partition of the layout box, fixed order and each seed of the seed window, the first 6 real sweeps (public solve(1)) are compared state by state with block Gauss-Seidel driven by the permutation recorded through the MDPAX_VERIF hook; permutations must be permutations, change between sweeps, be reproducible from the seed and differ between seeds; a sweep started at exact v* must return v*.",
             "Permutation observed through the guarded hook; partition through public batch_processor attributes; emulated devices.", "6 C06"),
     "C07": ("boxmc", "bounded-exhaustive enumeration of MDP alphabets x period x gamma x eps x history clearing on the real periodic solver against plain-VI reference iterates and the documented measure",
-            "Every (MDP, period in {1,2,3,4,7}, gamma in {1/2,0.9,1}, eps, clear) of the box is a real solve(); returned values must be the plain VI iterate V_n, n the first iteration >= period with the documented measure below eps, the circular buffer must hold V_(n-p)..V_n in the documented slots, the policy greedy; for gamma=1 on certified unichain MDPs (incl. periodic cycles) (V_n-V_(n-p))/p is within eps/p of g*.",
+            "Every (MDP, period in {1,2,3,4,7}, gamma in {1/2,0.9,1}, eps, clear) of the box is a real solve(); returned values must be the plain VI iterate V_n, n the first iteration >= period with the documented measure below eps, the circular buffer must hold V_(n-p)..V_n in the documented slots, the policy greedy (also per call when the run is split into two solve() calls); for gamma=1 on certified unichain MDPs (incl. periodic cycles) (V_n-V_(n-p))/p is within eps/p of g*.",
             "Runs whose stop decision is within rounding noise of the threshold (amplified by gamma^-(n-1)) are skipped and counted.", "6 C07"),
     "C13": ("boxmc", "complete enumeration of every (state, action, event) for every parameter tuple of the shipped-problem boxes",
             "For each of ~750 (quick) / ~7000 (thorough) valid parameter tuples the complete probability table is tabulated from the real problem object; finiteness, non-negativity and |row sum - 1| <= 1e-4 are checked for every state-action pair. Hendrix truncation deficits are known findings keyed by the distribution parameters and measured minimum row sum.",
@@ -52,7 +52,7 @@ CHECKS.update({
             "Successor state and reward of every triple (all probabilities, Hendrix where issued <= stock) are compared with pure-Python scalar models written from the docstrings, including unit conservation.",
             "Reference models are my reading of the documented dynamics (Forest follows the pymdptoolbox definition the class cites).", "6 C15"),
     "C16": ("boxmc", "complete enumeration of every event probability and initial value against independent scipy distributions for every parameter tuple",
-            "De Moor: gamma CDF differences with censored tail (1e-9); Mirjalili: censored negative binomial x multinomial with order-dependent logits (5e-6 absolute, numpyro's own accuracy); Hendrix: brute-force joint distribution with the truncated-tail interval oracle; Forest exact; initial values per documented definition.",
+            "De Moor: gamma CDF differences with censored tail (1e-9); Mirjalili: censored negative binomial x multinomial with order-dependent logits incl. distinct per-age slopes (5e-6 absolute, numpyro's own accuracy); Hendrix: brute-force joint distribution with the truncated-tail interval oracle; Forest exact; initial values per documented definition.",
             "scipy.stats as the independent reference; Hendrix compared up to the mass beyond the model's truncation point as the statement allows.", "6 C16"),
     "C17": ("boxmc", "bounded-exhaustive enumeration of tabular MDP alphabets x encodings, shipped parameter tuples and an error-path grid through the real matrix builder",
             "Builder output is compared entry by entry with numpy accumulation for block packs and slices of M2d/M2s under four encodings and both probability return types, for every small shipped tuple (non-normalised Hendrix tuples must raise), and the exact solve of the returned matrices must agree with functional value iteration; the error path is enumerated over deficit x tolerance x position with a second smaller offender.",
@@ -61,16 +61,16 @@ CHECKS.update({
 
 CHECKS.update({
     "C09": ("histmc", "exhaustive enumeration of interruption points (every k=1..N-1, chains of two in thorough) x checkpoint settings x routes, each segment a fresh interpreter, against the uninterrupted run",
-            "For every solver (VI, PI, RVI, periodic with and without history clearing, semi-async fixed order) and every interruption iteration the first segment runs with checkpointing in a fresh process, a second fresh process rebuilds the solver with restore() (no 64-bit switch pre-set) or load_checkpoint() and continues; final iteration, policy, values, gain, value history and index must equal the uninterrupted run without checkpointing (1e-12 relative; bit-identical chains are counted). Checkpointing on/off product and shuffled semi-async error bound are included.",
+            "For every solver (VI, PI with and without evaluation reset, RVI, periodic with and without history clearing, semi-async fixed order) and every interruption iteration the first segment runs with checkpointing in a fresh process, a second fresh process rebuilds the solver with restore() (no 64-bit switch pre-set) or load_checkpoint() and continues; final iteration, policy, values, gain, value history and index must equal the uninterrupted run without checkpointing (1e-12 relative; bit-identical chains are counted). Checkpointing on/off product and shuffled semi-async error bound are included.",
             "Instances converge in 4..22 iterations (Forest S=6, Mgen(9), De Moor, Hendrix); k=N chains (already converged) are recorded, not asserted.", "6 C09"),
     "C10": ("histmc", "exhaustive enumeration of (written directory, step in {latest, each retained}, every subset of the four restore overrides) in restorer processes against the writer's own recorded states",
             "20+ directories written by fresh interpreters (5 solvers x 4 shipped problems incl. tuple-valued Mirjalili parameters, one- and two-solve histories, configuration-less problems) are restored under all 16 override subsets at 'latest' (each followed by solve(2) to observe later saves), each retained explicit step under override subsets, and frequency->0; restored state is compared bit for bit with what the writer recorded at that save request, the configuration field-wise, the original tree by hash; five error paths.",
             "Writer records solver_state through a wrapper around the public save(); the written tree is reset to pristine before each restore. D8 (policy dropped for VI-family second-call checkpoints) is a known finding.", "6 C10"),
     "C11": ("crashmc", "crash-point enumeration over every prefix (plus torn last writes) of strace-recorded write histories, exhaustive commit-gate schedules with buffer poisoning, and SIGKILL conformance runs",
-            "(a) every prefix of every recorded system-call write history (4 histories quick / 24 x 2 recordings thorough; ~1500 / ~30000 crash states incl. torn variants) is rebuilt at a same-length sibling path and recovered: restore must fail iff no step was committed, otherwise return the newest committed iteration with exactly that iteration's state (independent numpy trajectory) and continue to the uninterrupted result; (b) every placement of each background commit relative to the solver's iteration boundaries is driven through a gate on Orbax's finalize, with mutable buffers poisoned after save() returns, and every (solver progress, writer progress) directory snapshot is recovered; (c) full-log replay must reproduce the real tree byte for byte and really SIGKILLed traced runs are recovered under the same oracle.",
+            "(a) every prefix of every recorded system-call write history (7 histories quick incl. a two-epoch restore history, a crash-restore-crash history recorded from a rebuilt crash state, periodic VI saving at every iteration and a semi-async history / 42 x 2 recordings thorough; ~2800 / ~45000 crash states incl. torn variants) is rebuilt at a same-length sibling path and recovered: restore must fail iff no step was committed, otherwise return the newest committed iteration with exactly that iteration's state (independent numpy trajectory) and continue to the uninterrupted result; (b) every placement of each background commit relative to the solver's iteration boundaries is driven through a gate on Orbax's finalize, with mutable buffers poisoned after save() returns, and every (solver progress, writer progress) directory snapshot is recovered; (c) full-log replay must reproduce the real tree byte for byte and really SIGKILLed traced runs are recovered under the same oracle.",
             "Process kill (page cache survives); cross-thread reorderings are not synthesised; Orbax 0.12.4 internals are gated from outside (AtomicRenameTemporaryPath.finalize).", "6 C11"),
     "C12": ("histmc", "explicit-state exploration of operation histories {solve(k), restore, restore(new dir), restore(max_checkpoints=1)} to depth 2/3 x (frequency, retention, sync/async, convergence iteration) against a reference directory model",
-            "Every history of the alphabet is executed on the real solver and on a reference model of cadence and retention; after every operation the step listing of every directory, the iteration, presence of config.yaml and presence of the last iteration of the call are compared; at the end of every history each retained step is restored and compared with the independently computed state of that iteration; frequency 0 must create nothing; configuration-less problems via load_checkpoint.",
+            "Every history of the alphabet is executed on the real solver - value iteration in full, and the other four solvers (each has its own save loop) at depth 2 - and on a reference model of cadence and retention; after every operation the step listing of every directory, the iteration, presence of config.yaml and presence of the last iteration of the call are compared; at the end of every history each retained step is restored and compared with the independently computed state of that iteration; frequency 0 must create nothing; configuration-less problems via load_checkpoint.",
             "Restores are 'latest' only; Forest VI instances converging at N=5,6,7.", "6 C12"),
     "C20": ("boxmc", "bounded-exhaustive enumeration of solver classes x construction routes x boundary parameter values, rejection list, and construction orders in fresh interpreters",
             "gamma x epsilon fully crossed per solver (incl. gamma 0 and 1, thresholds across 1/10/100) and every other parameter one at a time are constructed by three routes (instance+kwargs, configuration object alone, reloaded config.yaml) and solved; routes must agree; every documented invalid value is rejected by instance and by config with ValueError/TypeError; in fresh interpreters three construction orders are compared after exactly 3 sweeps to separate precision from stopping. The README order (problem before 64-bit mode) is known finding D4.",
